@@ -53,6 +53,7 @@ def scopes_program(rnd, nfiles=1, routines=24, fault=None):
     rid = 0
     fault_at = rnd.randrange(routines * nfiles) if fault else -1
     exported = []
+    late = set()
     for f in range(nfiles):
         stmts = []
         here = []
@@ -71,6 +72,11 @@ def scopes_program(rnd, nfiles=1, routines=24, fault=None):
                 refs.append(name)
             for name in refs:
                 stmts.append(insn("br", sym(name)) if rnd.random() < 0.6 else word(sym(name)))
+            if len(mine) >= 2 and fault is None and rnd.random() < 0.35:
+                # a skip whose size is a distance between two local labels of this scope plus a constant that is defined at the end of
+                # the file: it is evaluated when all scopes of the file have been compiled, and must still mean THIS scope's labels
+                stmts.append({"k": "dotset", "e": bin_("+", DOT, bin_("+", bin_("-", sym(mine[1]), sym(mine[0])), sym(f"kq{f}")))})
+                late.add(f)
             if rid - 1 == fault_at:
                 if fault == "invisible":
                     other = [n for n in LOCALS if n not in mine]
@@ -80,6 +86,8 @@ def scopes_program(rnd, nfiles=1, routines=24, fault=None):
             if rnd.random() < 0.4:
                 visible = [n for n in here if True] + exported
                 stmts.append(word(sym(rnd.choice(visible))))
+        if f in late:
+            stmts.append(const(f"kq{f}", num(2)))
         files.append(stmts)
     return files
 
